@@ -1,6 +1,7 @@
 import GB.C02.Progress
 import GB.C01.Status
 import GB.Generated.Facts
+import GB.C02.WsEpilogue
 import GB.C02.Stable
 /-
   C02 — every bridged call terminates promptly and releases its resources.
@@ -148,6 +149,67 @@ theorem C02_single_owner (p : Params) (s : State M E) (hr : Reachable p s) :
     (s.main = .uCloseSend → s.i2o = .absent) ∧ (s.main = .loopCloseSend → s.i2o = .exited) := by
   have S := sinv_reach p s hr
   refine ⟨fun h => S.pre_i (by simp [h]), fun h => S.pre_i (by simp [h]), fun h => S.pre_i (by simp [h]), S.lcs⟩
+
+/-! ### The epilogue of the WebSocket handlers (GB/C02/WsEpilogue.lean)
+
+  After Forward has returned, the handler sends the close frame (arming the connection deadline), closes
+  `stream.done`, waits for ReadLoop (`wg.Wait()`), closes the connection and returns. A client message that
+  arrives late puts ReadLoop into OnMessage, where it can only get out through `done` — nobody receives from
+  `events` any more. -/
+
+/-- Real order (`close(stream.done)` before `wg.Wait()`), for ANY number of late client messages and any
+    interleaving: every step of every run decreases `rank` (so every run is at most `5 + 2·late` steps long),
+    and in every reachable state in which the handler has not returned a step is enabled that needs nothing from
+    the client (ReadLoop's OnMessage always has its `done` branch, ReadLoop itself ends with the client's answer or
+    the connection deadline) — hence the handler returns, having closed the connection. -/
+theorem C02_ws_epilogue_terminates (late : Nat) (s : GB.WsEp.State)
+    (hr : GB.LTS.Reachable (GB.WsEp.step true) (GB.WsEp.init late) s) :
+    GB.WsEp.rank s ≤ 5 + 2 * late ∧
+    (∀ l s', GB.WsEp.step true s l = some s' → GB.WsEp.rank s' < GB.WsEp.rank s) ∧
+    (s.h ≠ .returned → ∃ l, GB.WsEp.own l = true ∧ (GB.WsEp.step true s l).isSome = true) ∧
+    (s.h = .returned → s.loop = .exited ∧ s.done = true) := by
+  have hinv : GB.WsEp.Inv s ∧ GB.WsEp.rank s ≤ 5 + 2 * late := by
+    refine GB.LTS.invariant (GB.WsEp.step true) (GB.WsEp.init late)
+      (fun s => GB.WsEp.Inv s ∧ GB.WsEp.rank s ≤ 5 + 2 * late) ⟨GB.WsEp.inv_init late, ?_⟩ ?_ s hr
+    · simp [GB.WsEp.rank, GB.WsEp.init, GB.WsEp.hRank, GB.WsEp.lRank]
+    · intro s l s' ⟨hi, hk⟩ hs
+      exact ⟨GB.WsEp.inv_step s s' l hi hs, Nat.le_trans (Nat.le_of_lt (GB.WsEp.rank_decreases true s s' l hs)) hk⟩
+  refine ⟨hinv.2, fun l s' hs => GB.WsEp.rank_decreases true s s' l hs, GB.WsEp.progress s hinv.1, ?_⟩
+  intro hret
+  obtain ⟨h1, _, h3⟩ := hinv.1
+  exact ⟨h3 (Or.inr hret), h1 (Or.inr (Or.inr hret))⟩
+
+/-- Swapped defers (`wg.Wait()` before `close(stream.done)`), kernel-checked negative witness: ONE late client
+    message suffices — the handler sits in wg.Wait(), ReadLoop sits in OnMessage, `done` is still open, and NO step
+    at all is enabled any more: handler, ReadLoop and connection are stuck for ever (seeded change C02-m5). -/
+theorem C02_ws_epilogue_swapped_deadlocks :
+    ∃ s : GB.WsEp.State, GB.LTS.run (GB.WsEp.step false) (GB.WsEp.init 1) [.sendClose, .msgArrives] = some s ∧
+      s.h = .first ∧ s.loop = .onMessage ∧ s.done = false ∧
+      ∀ l : GB.WsEp.Label, GB.WsEp.step false s l = none := by
+  refine ⟨{ h := .first, loop := .onMessage, done := false, armed := true, late := 0 }, by decide, rfl, rfl, rfl, ?_⟩
+  intro l
+  cases l <;> decide
+
+/-- Facts tie (regenerated from webbridge/websocket.go and grpcweb.go on every run): on the way out of BOTH
+    WebSocket handlers `close(stream.done)` is executed before `wg.Wait()` (plain statements in source order,
+    deferred ones in reverse registration order), and no return statement bypasses a non-deferred epilogue. -/
+theorem C02_facts_ws_epilogue_order :
+    GB.Generated.wsEpilogueOrder =
+      [("TranscodedWebSocketBridge.ServeHTTP", ["closeDone", "wgWait"]),
+       ("GRPCWebSocketBridge.ServeHTTP", ["closeDone", "wgWait"])]
+    ∧ GB.Generated.wsEpilogueSkips = [] := by
+  decide
+
+/-- The order parameter of the epilogue model, taken from the regenerated fact. -/
+def C02_wsDoneFirst : Bool := GB.Generated.wsEpilogueOrder.all (fun x => x.2 == ["closeDone", "wgWait"])
+
+/-- …so the termination theorem applies to the handlers as they are in the repository now. -/
+theorem C02_ws_epilogue_repo (late : Nat) (s : GB.WsEp.State)
+    (hr : GB.LTS.Reachable (GB.WsEp.step C02_wsDoneFirst) (GB.WsEp.init late) s) (hn : s.h ≠ .returned) :
+    ∃ l, GB.WsEp.own l = true ∧ (GB.WsEp.step C02_wsDoneFirst s l).isSome = true := by
+  have e : C02_wsDoneFirst = true := by decide
+  rw [e] at hr ⊢
+  exact (C02_ws_epilogue_terminates late s hr).2.2.1 hn
 
 /-! ### D1: a ctx-IGNORING incoming adapter deadlocks (negative witness, kernel-checked)
 
